@@ -89,7 +89,7 @@ class FockDimensions:
             )
             resulting_state = jnp.dot(operator, self.state)
             cdf: float = 0
-            if resulting_state[-1, 0] > (1 - self.threshold) * 1e-3:
+            if jnp.abs(resulting_state[-1, 0]) > (1 - self.threshold) * 1e-3:
                 return -1
             for i in range(len(resulting_state)):
                 tmp = jnp.abs(resulting_state[i][0]) ** 2
